@@ -431,6 +431,10 @@ def _optimize(n):
         def feasible(x):
             return s.sat(A, dict(zip(names, x)))
 
+        # every variable the objective really mentions must be a column of the LP, otherwise part of the objective is lost
+        for nm, cf in odict.items():
+            h.ensure("C12.optimize.objective_variable_%s_is_an_lp_column" % nm, z3.BoolVal(True) if nm in names else (to_real(cf) == 0))
+
         q = call.space.new_point("q")
         hints = [call.inst(q)]
         sign = -1 if maximize else 1
